@@ -111,9 +111,10 @@ Section WithOpts.
   Definition last_quoted (elem : str) (a : attrs) : bool :=
     fold_left (fun q x => if attr_has_value elem x then needs_quote (snd x) else q) a true.
 
-  Definition ser_start (name : str) (a : attrs) : str :=
+  (* [empty]: the token is an EmptyTag (only those get the trailing solidus) *)
+  Definition ser_start (empty : bool) (name : str) (a : attrs) : str :=
     [60] ++ name ++ flat_map (ser_attr name) a ++
-    (if mem_str name voidElements && solidus o
+    (if empty && mem_str name voidElements && solidus o
      then (if space_solidus o || negb (last_quoted name a) then [32; 47] else [47]) else []) ++ [62].
 
   (* one token: (in_cdata, text, errors); None = the real code raises (KeyError on an unknown entity) *)
@@ -127,7 +128,7 @@ Section WithOpts.
         Some (in_cdata, s, if in_cdata && contains [60; 47] s then [E_lt_slash_in_cdata] else [])
     | TStart _ name a | TEmpty _ name a =>
         let enter := mem_str name rcdataElements && negb (escape_rcdata o) in
-        Some (if enter then true else in_cdata, ser_start name a,
+        Some (if enter then true else in_cdata, ser_start (match t with TEmpty _ _ _ => true | _ => false end) name a,
               if enter then [] else if in_cdata then [E_child_of_cdata] else [])
     | TEnd _ name =>
         let leave := mem_str name rcdataElements in
